@@ -259,4 +259,18 @@ func init() {
 				Quick: map[string]int{"N": 2}, Thorough: map[string]int{"N": 3}, Variants: c15Variants(9), MaxSteps: 3_000_000},
 		},
 	})
+
+	// ---------------------------------------------------------------- C23
+	register(&checkSpec{
+		ID:   "C23",
+		Rule: "import blocks of up to K specs: name (none a _ .), path \"pa\"/\"pb\"/\"pc\" (equal / ordered / duplicate paths all occur), trailing comment and group break chosen by symbolic selectors (the engine forks over them); the real format.Source (parser, ast.SortImports, sortSpecs, collapse, printer, tabwriter) runs on the text, the output is re-parsed and the (name,path) multisets and per-group order are compared",
+		Assumptions: []string{
+			"bound: one parenthesized import declaration of at most K specs over 4 names x 3 paths x comment x group break; comments only as trailing line comments",
+			"sort.Slice is modelled by an insertion sort that calls the real less closure (reflectlite swapper is not executable)",
+		},
+		Harnesses: []harnessSpec{
+			{Name: "VxC23", Pkg: "github.com/goplus/xgo/format", Files: []string{"c23/c23.go"},
+				Quick: map[string]int{"K": 3}, Thorough: map[string]int{"K": 4}, MaxSteps: 50_000_000},
+		},
+	})
 }
